@@ -17,9 +17,27 @@ def leg(ctx, quick=None):
             raise V.Machinery("%s no longer yields the login-CSRF counterexample:\n%s" % (weak, V.tail_err(out)))
     ctx.cov["legs"]["M:SSO weakened variants"] = "NoLoginCSRF violated when either the proxy's state/cookie binding or the authenticator's nonce binding is removed"
     beh, n = V.leg_g(ctx, "SSOGen", "SSO.Gen.cfg", "BEH", "sso.jsonl", workers=4)
+    # plus deep random walks (tlc -simulate): the breadth-first emission gives the SHORTEST behaviour into every state of the
+    # VIEW, so what follows a step that leaves the VIEW unchanged (an abandoned flow, a refused lure) is only in these
+    nsim = 150 if quick else 3000
+    rc, out = V.tlc(ctx, "SSOGen", "SSO.Sim.cfg", workers=1, timeout=900, tag="Gsim-sso",
+                    extra=["-simulate", "num=%d" % nsim, "-depth", "41", "-seed", str(ctx.seed)])
+    k = 0
+    simf = os.path.join(ctx.scratch, "sso-sim.jsonl")
+    with open(simf, "w") as f:
+        for line in out.splitlines():
+            if line.startswith('<<"BEH", ') and line.endswith(">>") and k < nsim:
+                f.write(json.loads(line[len('<<"BEH", '):-2]) + "\n")
+                k += 1
+    if k == 0:
+        raise V.Machinery("SSO simulation emitted no behaviour:\n" + V.tail_err(out))
+    ctx.cov["e2e_simulated_walks"] = k
     obs = os.path.join(ctx.scratch, "sso.ndjson")
     s = V.harness(ctx, ["e2e", "-in", beh, "-out", obs, "-seed", ctx.seed, "-sample", 1500 if quick else 0, "-workers", V.NCPU])
-    lines = open(obs).read().splitlines(True)
+    obs2 = os.path.join(ctx.scratch, "sso-sim.ndjson")
+    s2 = V.harness(ctx, ["e2e", "-in", simf, "-out", obs2, "-seed", ctx.seed, "-sample", 0, "-workers", V.NCPU])
+    lines = open(obs).read().splitlines(True) + open(obs2).read().splitlines(True)
+    open(obs, "a").write(open(obs2).read())
     chunk, part, cur = 150000, 0, []
     for ln in lines + [None]:
         if ln is None or (ln.startswith('{"ev":"reset"') and len(cur) >= chunk):
@@ -44,6 +62,6 @@ def leg(ctx, quick=None):
             cur = []
         if ln is not None:
             cur.append(ln)
-    ctx.cov["e2e_behaviours"] = s["executed"]
-    ctx.cov["e2e_steps"] = s["lines"]
+    ctx.cov["e2e_behaviours"] = s["executed"] + s2["executed"]
+    ctx.cov["e2e_steps"] = s["lines"] + s2["lines"]
     return s
